@@ -54,6 +54,7 @@ class Collector(object):
         self.samples = []
         self.sample_limit = 5
         self.violations = {}        # key -> (case, viol)
+        self.violating_cases = 0
         self.harness_errors = []
         self.interleavings = set()
         self.states = set()
@@ -100,6 +101,8 @@ class Collector(object):
         self.sim_time += res.get('sim_time', 0.0)
         if res.get('nontrivial') and len(self.samples) < self.sample_limit and res.get('sample') is not None:
             self.samples.append(res['sample'])
+        if any(v.get('prop') == self.property_id for v in res.get('violations', ())):
+            self.violating_cases += 1
         for v in res.get('violations', ()):
             if v.get('prop') != self.property_id:
                 if os.environ.get('PONYSIM_DEV_SWEEP') and v.get('key') not in self.foreign:
@@ -272,9 +275,10 @@ def finish(col, pool, engine_mod_for, coverage_extra=None, assumptions=None, com
     os.makedirs(evdir, exist_ok=True)
     with open(os.path.join(evdir, prop + '.json'), 'w') as f:
         json.dump(ev, f, indent=1, sort_keys=True, default=repr)
-    print('%s tier=%s seed=%d evaluations=%d distinct_nontrivial=%d wall=%.1fs faults=%d known=%d'
+    print('%s tier=%s seed=%d evaluations=%d distinct_nontrivial=%d wall=%.1fs faults=%d known=%d%s'
           % (prop, col.tier, col.seed, col.evaluations, len(col.nontrivial_sigs), wall,
-             sum(col.faults_fired.values()), len(known_seen)))
+             sum(col.faults_fired.values()), len(known_seen),
+             (' violating_cases=%d' % col.violating_cases) if col.violating_cases else ''))
     for p, n in sorted(col.probes.items()):
         pass
     rc = 0
